@@ -22,6 +22,12 @@ def txn_type(ctx):
             t = ctx.prog.types[f["ty"]]
             if t.get("k") == "adt" and effects.norm(t["def"]) == "tempfile::NamedTempFile":
                 hits.append(path)
+    if len(hits) > 1:
+        # an internal staging struct may carry the temp file through the commit; the transaction type is the one a
+        # caller can name
+        pub = [h for h in hits if ctx.prog.adts[h].get("reachable")]
+        if pub:
+            hits = pub
     return hits
 
 
